@@ -73,7 +73,8 @@ PROG_Steps == <<
   Rm("p", "plate", "W"), Rm("p", "row1", "liquid"), Rm("b", "-", "E"), Rm("a", "-", "solid"),
   Fl("p", "plate", "W", "L", I(6)), Fl("p", "row2", "W", "L", I(5)), Fl("b", "-", "W", "L", I(12)),
   Dl("a", "N", "mol", "L", "W", R(1, 10)), DlAs("a", "N", "mol", "L", "W", R(1, 12), "renamed"),
-  Cc("c", I(10), <<<<"W", I(4)>>, <<"N", One>>>>), Tr("c", "-", "p", "A2", One, "L"), Tr("a", "-", "c", "-", I(2), "L"),
+  Cc("c", I(10), <<<<"W", I(3)>>, <<"N", One>>, <<"W", One>>>>),       \* (a substance listed twice adds up)
+  Tr("c", "-", "p", "A2", One, "L"), Tr("a", "-", "c", "-", I(2), "L"),
   Cs("sol", "N", "W", One, "mol", I(9), "L"), Cs("sol", "N", "a", I(3), "g", I(6), "L"), Tr("sol", "-", "p", "B1", One, "L"),
   Cf("a", "dil", "N", "W", R(1, 10), "mol", "L", I(4), "L"), Tr("dil", "-", "p", "B2", One, "L")>>
 PROG_Alphabet == PROG_Steps \o <<Ss("s1"), Es("s1"), Ss("s2"), Bk>>
